@@ -299,21 +299,27 @@ def num_ok(e):
 
 
 def enc_ok(e):
+    """shape invariants the proved parse_value contracts require; string / binary lengths are fixed or looked up (fields
+    whose length comes from an earlier parameter are proved on packets whose length references are integers - C07 - and
+    are covered inside the walk by the bounded stand-in)"""
     return (implies(cls_is(e, 'IntegerDataEncoding'),
                     num_ok(e) and (e.encoding == 'unsigned' or e.encoding == 'signed' or e.encoding == 'twosComplement')) and
             implies(cls_is(e, 'FloatDataEncoding'), num_ok(e)) and
             implies(cls_is(e, 'StringDataEncoding'),
-                    is_none(e.length_linear_adjuster) or (is_none(e.fixed_length) and not is_none(e.dynamic_length_reference))) and
+                    is_none(e.length_linear_adjuster) and is_none(e.dynamic_length_reference)) and
             implies(cls_is(e, 'BinaryDataEncoding'),
-                    is_none(e.linear_adjuster) or (is_none(e.fixed_size_in_bits) and not is_none(e.size_reference_parameter))))
+                    is_none(e.linear_adjuster) and is_none(e.size_reference_parameter)))
 
 
 @opaque('rec', 'bool')
 def param_ok(p):
-    """the parameter's type is one of the plain parameter types and its encoding satisfies the shape invariants that the
+    """the parameter's type is a plain, boolean or integer-encoded enumerated parameter type and its encoding satisfies the shape invariants that the
     proved parse_value contracts require (opaque to the walk; revealed in Parameter.parse's proof)"""
     return ((cls_is(p.parameter_type, 'IntegerParameterType') or cls_is(p.parameter_type, 'FloatParameterType') or
-             cls_is(p.parameter_type, 'StringParameterType') or cls_is(p.parameter_type, 'BinaryParameterType')) and
+             cls_is(p.parameter_type, 'StringParameterType') or cls_is(p.parameter_type, 'BinaryParameterType') or
+             cls_is(p.parameter_type, 'BooleanParameterType') or
+             (cls_is(p.parameter_type, 'EnumeratedParameterType') and
+              cls_is(p.parameter_type.encoding, 'IntegerDataEncoding'))) and
             enc_ok(p.parameter_type.encoding))
 
 
